@@ -349,6 +349,10 @@ func (g *gen) typeInv(term string, t types.Type, st State) string {
 			lo, hi := intRange(u)
 			return "(and (<= " + smtInt(lo) + " " + term + ") (<= " + term + " " + smtInt(hi) + "))"
 		}
+		if u.Kind() == types.String {
+			// a Go string value is at most as long as an allocation can be (same bound as slices)
+			return "(<= (slen " + term + ") 4611686018427387904)"
+		}
 	case *types.Slice:
 		top := g.stGet(st, "alloctop")
 		return "(and (<= 0 (s.ref " + term + ")) (< (s.ref " + term + ") " + top + ") (<= 0 (s.off " + term + ")) (<= 0 (s.len " + term + ")) (<= (s.len " + term + ") (s.cap " + term + ")) (<= (+ (s.off " + term + ") (s.cap " + term + ")) 4611686018427387904) (=> (= (s.ref " + term + ") 0) (= (s.cap " + term + ") 0)))"
